@@ -226,6 +226,33 @@ theorem trans_injective {G : Graph} {f : Nat} {s s' : St} {r t : Ref} (ht : Tran
   exact snd_nodup_inj s'.trans hok.1 (assoc_some_mem _ _ _ ha) (assoc_some_mem _ _ _ hb)
 
 
+/-! ### which streams are decrypted: the object's encryption state, never its /Type -/
+
+theorem kvLookup_kvSet_ne {k k' : Bytes} (h : k ≠ k') (v : Obj) :
+    ∀ d : KV, kvLookup k (kvSet k' v d) = kvLookup k d
+  | [] => by simp [kvSet, kvLookup, Ne.symm h]
+  | (a, w) :: rest => by
+    simp only [kvSet]
+    split
+    · next e => subst e; simp [kvLookup, Ne.symm h]
+    · next e => simp only [kvLookup]; split <;> simp [kvLookup_kvSet_ne h v rest]
+
+/-- a stream the Reader hands out without a decryption filter (unencrypted file, or the
+    catalog's /Metadata stream of a file with /EncryptMetadata false — the only exempt one) is
+    copied verbatim -/
+theorem recipe_unencrypted (G : Graph) (d : KV) : streamCryptRecipe G d false = .ok .none := by
+  simp [streamCryptRecipe]
+
+/-- **recipe_ignores_type.**  Whether (and how) a stream is decrypted does not depend on its
+    /Type entry: a stream with /Type /Metadata that is not the catalog's is decrypted like any
+    other stream. -/
+theorem recipe_ignores_type (G : Graph) (d : KV) (enc : Bool) (v : Obj) :
+    streamCryptRecipe G (kvSet keyType v d) enc = streamCryptRecipe G d enc := by
+  have h1 : keyFilter ≠ keyType := by decide
+  have h2 : keyDecodeParms ≠ keyType := by decide
+  simp only [streamCryptRecipe, getFilterKinds, kvLookup_kvSet_ne h1, kvLookup_kvSet_ne h2]
+
+
 /-! ### `Resolve` follows chains of references to their end (independent characterisation) -/
 
 def IsRef : Val → Prop
